@@ -350,6 +350,7 @@ DEC_MALFORMED = {'kind': 'mc', 'name': 'malformed', 'module': 'MC_Frames', 'comp
                  'extra': {'recheck': True}, 'invariants': ['InvC02', 'InvC04']}
 DEC_ARBITRARY = {'kind': 'gen', 'name': 'arbitrary-asan', 'gen': dec_arbitrary, 'comp': 'dec', 'trace': 'TraceDec', 'variant': 'asan'}
 DEC_FRAMES_ASAN = {'kind': 'gen', 'name': 'randomframes-asan', 'gen': dec_frames_c02, 'comp': 'dec', 'trace': 'TraceDec', 'variant': 'asan'}
+DEC_ANY_ASAN = dict(DEC_ANY, name='anyhistory-asan', variant='asan')
 DEC_ARBITRARY_P = {'kind': 'gen', 'name': 'arbitrary-guardpages', 'gen': dec_arbitrary_plain, 'comp': 'dec', 'trace': 'TraceDec'}
 DEC_ANY_WALKS = dict(DEC_ANY, name='anyhistorywalks', simulate={'quick': (16, 30), 'thorough': (160, 40)},
                      cfg={'quick': 'MC_DecAny_walks.cfg', 'thorough': 'MC_DecAny_walks.cfg'})
@@ -487,7 +488,7 @@ PROPS = {
                     'not fit. Non-trivial = distinct episodes containing a TECMP message of a supported message type.',
             'assumptions': COMMON_ASSUMPTIONS + ['bytes after the declared TECMP payload length are not generated (their meaning is not pinned down)',
                                                  'the CAN CRC word and the classic / FD choice are not prescribed by the property']},
-    'C02': {'level': 'exploration', 'stages': [DEC_MALFORMED, DEC_MCTECMP, DEC_FRAMES_ASAN, DEC_ARBITRARY, DEC_ARBITRARY_P],
+    'C02': {'level': 'exploration', 'stages': [DEC_MALFORMED, DEC_MCTECMP, DEC_ANY_ASAN, DEC_FRAMES_ASAN, DEC_ARBITRARY, DEC_ARBITRARY_P],
             'nontrivial_case': nt_dec_any,
             'technique': 'TLA+ specification enumerates structured malformed inputs and fixes the expected outputs (TLC judges the '
                          'recorded traces); memory safety itself is observed by guard pages and ASan/UBSan, not decided by TLC',
